@@ -3151,11 +3151,16 @@ class Transport(threading.Thread, ClosingContextManager):
         self._log(
             DEBUG, "Secsh channel {:d} ({}) opened.".format(my_chanid, kind)
         )
-        if kind == "auth-agent@openssh.com":
+        # NOTE: in server mode a channel of one of these kinds may have been
+        # accepted by the server object although no local handler exists.
+        if (
+            kind == "auth-agent@openssh.com"
+            and self._forward_agent_handler is not None
+        ):
             self._forward_agent_handler(chan)
-        elif kind == "x11":
+        elif (kind == "x11") and (self._x11_handler is not None):
             self._x11_handler(chan, (origin_addr, origin_port))
-        elif kind == "forwarded-tcpip":
+        elif (kind == "forwarded-tcpip") and (self._tcp_handler is not None):
             chan.origin_addr = (origin_addr, origin_port)
             self._tcp_handler(
                 chan, (origin_addr, origin_port), (server_addr, server_port)
